@@ -43,6 +43,10 @@ def unpack (f : List (List α)) : List α := f.flatten
 
 def lsum (l : List α) : α := l.foldr (· + ·) 0
 
+/-- lane-wise block operations (`sub_assign`, `mul_assign` / `mul` on one SIMD block) -/
+def blockSub (b1 b2 : List α) : List α := List.zipWith (· - ·) b1 b2
+def blockMul (b1 b2 : List α) : List α := List.zipWith (· * ·) b1 b2
+
 /-- `reduce_add` of `(b1 - b2) * (b1 - b2)` for one block -/
 def blockSq (b1 b2 : List α) : α := lsum ((b1.zip b2).map (fun p => (p.1 - p.2) * (p.1 - p.2)))
 def blockDot (b1 b2 : List α) : α := lsum ((b1.zip b2).map (fun p => p.1 * p.2))
